@@ -354,6 +354,22 @@ class Harness:
     def do_adopt(self, pid, ctx, runtime=None):
         spec = self.spec_of(pid)
         fn, args, kwargs = self.make_payload(pid, spec)
+        share = spec.get("same_callable")
+        if share:
+            # several payloads are ONE callable object handed to adopt() several times (without
+            # arguments): every call of it is another payload
+            if not hasattr(self, "shared"):
+                self.shared = {}
+            if share not in self.shared:
+                todo = []
+
+                def dispatcher():
+                    return todo.pop(0)()
+                dispatcher.todo = todo
+                dispatcher.__name__ = dispatcher.__qualname__ = "payload_shared_" + share
+                self.shared[share] = dispatcher
+            self.shared[share].todo.append(fn)
+            fn = self.shared[share]
         hooks.emit("adopt.call", p=pid, ctx=ctx, flavour=spec["flavour"])
         try:
             r = (runtime or self.runtime).adopt(fn, *args, flavour=FLAVOURS[spec["flavour"]], **kwargs)
@@ -470,6 +486,17 @@ class Harness:
         if falsy:
             Svc.__len__ = lambda self: 0
         Svc = service(flavour=flav)(Svc)
+        sub = spec.get("sub")
+        if sub == "nosuper":
+            # a subclass of the service class with a constructor of its own that does not call
+            # the parent's (the parent has none to speak of)
+            class Sub(Svc):
+                def __init__(self):
+                    self.ready = True
+            Svc = Sub
+        elif sub == "redecorated":
+            # ... or a subclass that is declared a service again (another flavour, say, or by habit)
+            Svc = service(flavour=flav)(type("Sub", (Svc,), {}))
         self.services[sid] = Svc()
         hooks.emit("svc.new", s=sid, ctx=ctx, flavour=spec["flavour"])
 
